@@ -34,6 +34,7 @@ let after s p = String.sub s (String.length p) (String.length s - String.length 
 let parse_bitop op =
   if op = "ue" then OpUe else if op = "se" then OpSe else if op = "b" then OpB
   else if op = "m" then OpMore else if op = "f" then OpFin else if op = "s" then OpFinSei
+  else if op = "t8" then OpTo (n_of_int 1) else if op = "t16" then OpTo (n_of_int 2) else if op = "t32" then OpTo (n_of_int 4)
   else if starts op "u8." then OpU (n_of_int 8, n_of_string (after op "u8."))
   else if starts op "u16." then OpU (n_of_int 16, n_of_string (after op "u16."))
   else if starts op "u32." then OpU (n_of_int 32, n_of_string (after op "u32."))
